@@ -124,10 +124,11 @@ Definition t2_read_d (em : list Z) : res (option layout) * Z :=
    SECTOR SELECT packets per 1 KiB boundary, the first command that is not answered is sent 3 times
    (transceive: retries=2; the second SECTOR SELECT packet is sent once) *)
 Definition t2_cmds_max (d : Z) : Z := (d + 15) / 16 + 2 * (d / 1024) + 3.
-(* explicit bound of the demand in terms of the data area: the walk reads no TLV that starts at or
-   behind [dend]; a value is at most 65535 bytes and skips at most the reserved bytes (at most 256 per
-   control TLV, at most one control TLV per 5 bytes of data area) *)
-Definition t2_demand_bound (dend : Z) : Z := dend + 4 + 65535 + 256 * ((dend - 16) / 5 + 1) + 256.
+(* explicit bound of the demand in terms of the data area: a TLV that is read starts below [dend] or directly
+   behind reserved bytes that follow a position below [dend]; its value is at most 65535 bytes long and skips
+   reserved bytes; there are at most 256 reserved bytes per control TLV and, below [dend], at most one control
+   TLV per 5 bytes *)
+Definition t2_demand_bound (dend : Z) : Z := dend + 65541 + 512 * ((dend - 16) / 5 + 1).
 
 (* ------------------------------------------------------------ Type 1 *)
 Definition t1_dispatch_any (skip : ranges) (t l : Z) (v : list Z) : res tlv_action :=
